@@ -31,7 +31,8 @@ for pid in ALL:
         "technique": cfg.get("technique", TECH),
     })
 
-hooks_commits = [l.strip() for l in open(os.path.join(ROOT, "hooks_commits.txt"))] if os.path.exists(os.path.join(ROOT, "hooks_commits.txt")) else []
+import subprocess
+hooks_commits = subprocess.run(["git", "-C", "/repo", "log", "--format=%h", "--grep=^verif:", "--reverse"], capture_output=True, text=True).stdout.split()
 m = {
     "version": 1,
     "setup_cmd": "./build.sh",
